@@ -108,6 +108,17 @@ def run(ctx):
             if kinds:
                 d["kinds"] = kinds
             specs.append(d)
+    # blocks with two outputs under back-pressure: the outputs are drained by different readers,
+    # so their free space differs while more input is waiting than either can take
+    for blk, prm, kind, n in (("ZeroCrossingClock", {"sps": 2.0}, "nrz", 6000), ("ZeroCrossingClock", {"sps": 4.0}, "special", 9000), ("Tee<u8>", {}, "bytes", 9000)):
+        for k in range(6 if not th else 12):
+            gid += 1
+            specs.append(dict(base(blk, prm, gid, kind=kind, len=n), mode="random", steps=400, style=3 + k % 2, id=f"{gid}:bp{k}", seed=ctx.seed * 29 + gid))
+    # IL2P: sync marks anywhere in random bits, the header collected over several calls
+    for k in range(6 if not th else 20):
+        gid += 1
+        specs.append(dict(base("Il2pDeframer", {}, gid, kind="bits", len=300 + 50 * k, tags="sync"),
+                          mode="random", steps=80, style=k % 5, id=f"{gid}:il2p{k}", seed=ctx.seed * 23 + gid, force_tags="sync"))
     # StreamToPdu / VecToStream degenerate packets
     gid += 1
     specs.append(dict(base("VecToStream<u8>", {}, gid, packets=[[], [1], [], [], [2, 3]]), mode="random", steps=40, style=1, id=f"{gid}:v", seed=gid))
